@@ -26,7 +26,7 @@ CASE_TIMEOUT = 300.0
 
 FINAL = ('success', 'failed', 'cancelled')
 OPS = ['queued', 'running', 'set_result', 'set_exc', 'set_exc_override', 'cancel', 'cancel_fatal', 'announce', 'add_cb', 'add_cleanup',
-       'fut_set_exc', 'fut_cancel', 'cancel_badexc']
+       'fut_set_exc', 'fut_cancel', 'cancel_badexc', 'set_result_none']
 # 'obs' (threads only): what a user sees - 'pending' while done has not been announced, afterwards what result() gives
 # 'final_task' (threads only): what Task.__call__ does for a transfer's final task - skip the work if the transfer is already done,
 # otherwise store the result; then announce done
@@ -74,9 +74,10 @@ class Ref:
             if self.done():
                 return ('raise', 'RuntimeError')
             self.status = op
-        elif op == 'set_result':
+        elif op in ('set_result', 'set_result_none'):
+            # real transfers (upload / download / copy / delete) all finish with the result None
             self.exc = None
-            self.result = ('R', step)
+            self.result = ('R', step) if op == 'set_result' else None
             self.status = 'success'
         elif op == 'set_exc':
             if not self.done():
@@ -147,6 +148,8 @@ class Real:
                 c.set_status_to_running()
             elif op == 'set_result':
                 c.set_result(('R', step))
+            elif op == 'set_result_none':
+                c.set_result(None)
             elif op in ('set_exc', 'set_exc_override'):
                 e = ValueError(f'E{step}')
                 self.sym[id(e)] = ('E', step)
@@ -402,7 +405,7 @@ def model_outcomes(thread_ops, prefix=()):
                 s.append((ti, oi, op, step, 'o_exc'))
                 s.append((ti, oi, op, step, 'o_exc2'))
                 s.append((ti, oi, op, step, 'o_res'))
-            elif op == 'set_result' and split:
+            elif op in ('set_result', 'set_result_none') and split:
                 s.append((ti, oi, op, step, 'sr_exc'))
                 s.append((ti, oi, op, step, 'sr_rest'))
             else:
@@ -431,7 +434,7 @@ def model_outcomes(thread_ops, prefix=()):
             (ti, oi, op, step, part) = seqs[t][pos[t]]
             holder = do_cl.get((-1,))
             if holder is not None and holder != t and (part in ('mark', 'sr_exc', 'f_set_exc', 'f_set') or (
-                    part == 'atomic' and op in ('queued', 'running', 'set_result', 'set_exc', 'set_exc_override', 'fut_set_exc', 'cancel_badexc'))):
+                    part == 'atomic' and op in ('queued', 'running', 'set_result', 'set_result_none', 'set_exc', 'set_exc_override', 'fut_set_exc', 'cancel_badexc'))):
                 continue  # needs the coordinator lock, which another thread holds
             r2 = _copy.copy(ref)
             res2, pa2, dc2 = dict(res), dict(pend_ann), dict(do_cl)
@@ -443,7 +446,7 @@ def model_outcomes(thread_ops, prefix=()):
                     dc2[(-1,)] = t
             elif part in ('sr_rest', 'f_set_rest'):
                 if part == 'sr_rest' or dc2.pop((ti, oi, 'f'), False):
-                    r2.apply('set_result', step)
+                    r2.apply(op if op == 'set_result_none' else 'set_result', step)
                     dc2.pop((-1,), None)
             elif part == 'atomic':
                 res2[(ti, oi)] = r2.apply(op, step)
